@@ -1,7 +1,7 @@
 (* C17 — In-flight packet identifiers unique and bounded; excess gets ErrMax, no block.
    Property theorems only.  The state space is every reachable state of the closed system
    client + Persistence (MQ.Outbound.run): any API history under any environment script. *)
-From MQ Require Import Session Outbound OutboundInv OutboundRefine SessionTheorems.
+From MQ Require Import Session Outbound OutboundInv OutboundRefine SessionTheorems TxCheckProofs.
 
 (* The invariant behind it holds in every reachable state. *)
 Theorem c17_invariant : forall s, reachable_wf s -> OInv' (ost_of s).
@@ -144,3 +144,10 @@ Example c17_tx_nonvacuous :
   ex_tx_run = Some ([(16384 + 2, 3, None); (24576 + 1, 2, Some [[100]]);
                      (24576, 1, Some [[98]; [99]]); (24576 + 8191, 0, Some [[97]])], 8195).
 Proof. exact tx_example. Qed.
+
+(* the model side of the startTx tie (runner C17TX) meets the judgement tx_ok for EVERY table and
+   counter: identifier free, non-zero, in the space of its kind; ErrMax exactly above 511 pending *)
+Theorem c17_tx_model_meets_tx_ok : ltac:(let t := type of tx_model_meets_tx_ok in exact t).
+Proof. exact tx_model_meets_tx_ok. Qed.
+Check c17_tx_model_meets_tx_ok.
+Print Assumptions c17_tx_model_meets_tx_ok.
